@@ -306,6 +306,14 @@ theorem C17_xf_dataclass_witness : ¬ DataclassStatement Cfg.pinned := by
   rw [this] at hcall
   cases hcall
 
+/-- second face of the same defect: when the factory field follows a field with a plain default the
+second conversion raises ("non-default argument follows default argument") and no node class exists -/
+theorem C17_xf_dataclass_def_witness :
+    orderOk [⟨"x", .value (.atom "0")⟩, ⟨"z", .factory (.atom "g()")⟩] = true ∧
+    nodeFields Cfg.pinned true [⟨"x", .value (.atom "0")⟩, ⟨"z", .factory (.atom "g()")⟩] = none ∧
+    (nodeFields Cfg.repaired true [⟨"x", .value (.atom "0")⟩, ⟨"z", .factory (.atom "g()")⟩]).isSome = true := by
+  refine ⟨by rfl, by rfl, by rfl⟩
+
 /-! ### asking a transformer again (cache hit) -/
 
 /-- the property's "returns exactly what the function returns", for the second identical call -/
@@ -381,5 +389,6 @@ end PwVerif.C17
 #print axioms PwVerif.C17.C17_xf_dataclass_partial
 #print axioms PwVerif.C17.C17_xf_dataclass_repaired
 #print axioms PwVerif.C17.C17_xf_dataclass_witness
+#print axioms PwVerif.C17.C17_xf_dataclass_def_witness
 #print axioms PwVerif.C17.C17_xf_rerun_repaired
 #print axioms PwVerif.C17.C17_xf_rerun_witness
